@@ -102,13 +102,43 @@ def pre(tier, seed):
         elif meth == "Copy" and 1 in rf.get(i, []):
             sharing_copies.append({"function": name, "results_may_be_derived_from_parameters": rf.get(i, []),
                                    "means": "the value Copy returns may be memory of its source"})
+    # ... and for every inspector: which operation may rewrite text where it lies - write bytes in place into a byte array
+    # that is not its buffer's (text is assigned by reference: the bytes a private value holds may be a shared value's)
+    ti = {}
+    m = re.search(r"fp_text_into : list \(N \* list N\) := \[(.*?)\n\]\.", new, re.S)
+    for e in re.finditer(r"\((\d+), \[([^\]]*)\]\)", m.group(1) if m else ""):
+        ti[int(e.group(1))] = [int(x) for x in e.group(2).split(";") if x.strip()]
+    tparams = {"cpy": (["inspector", "buf", "l (destination)", "r (source)"], (1,)),
+               "CopyTo": (["inspector", "src", "dst", "buf"], (3,)),
+               "SetWithBuffer": (["inspector", "dst", "value", "buf", "path"], (3,)),
+               "Loop": (["inspector", "src", "iterator", "key buffer", "path"], (3,)),
+               "Set": (["inspector", "dst", "value", "path"], ()), "Copy": (["inspector", "src"], ()), "Reset": (["inspector", "x"], ())}
+    for r_ in ("Get", "GetTo", "Compare", "Length", "Capacity", "DeepEqual", "DeepEqualWithOptions", "TypeName"):
+        tparams[r_] = ([], ())
+    rewriting = []
+    for i in sorted(fns):
+        name = fns[i][0]
+        if "Inspector)." not in name:
+            continue
+        meth = name.rsplit(").", 1)[-1]
+        if meth not in tparams or (meth == "cpy" and "/testobj_ins." not in name):
+            continue
+        names, allowed = tparams[meth]
+        bad = [q for q in ti.get(i, []) if q not in allowed]
+        if bad:
+            rewriting.append({"function": name, "parameters": names, "may_write_text_in_place_into_memory_of_parameters": bad,
+                              "means": "the operation may rewrite bytes where they lie (an append into the spare capacity of, or a copy into, "
+                                       "a []byte it finds in a value) instead of putting the text into the caller's buffer: those bytes may be "
+                                       "a SHARED value's (Set assigns text by reference: ins.Set(private, v, path) with v from ins.Get(shared, path)), "
+                                       "so a write operation on a private value writes the shared one"})
     return {"file": "coq/Gen/FootprintFacts.v", "functions": len(fns), "roots": len(roots), "reachable": len(seen),
             "changed_since_commit": changed, "reachable_functions_storing_to_globals": offenders,
             "copy_primitives_handing_out_their_source": handing_out,
             "functions_writing_through_a_parameter": len(sf),
             "read_operations_writing_what_they_read": writing_reads,
             "scratch_parameters_left_with_foreign_memory": foreign_keys,
-            "generated_copies_storing_their_source": sharing_copies}
+            "generated_copies_storing_their_source": sharing_copies,
+            "operations_rewriting_text_in_place": rewriting}
 
 
 def post(tier, seed, cov, result):
@@ -137,7 +167,7 @@ def post(tier, seed, cov, result):
                 problem = ("data race reported by the race detector" if race else
                            "a call returned something else than when run alone, a private value did not hold what its goroutine stored, "
                            "or a shared value is not what it was before the goroutines started (a read operation, or a write to a private value "
-                           "copied from it, changed it)") + \
+                           "copied from it or handed a reference into it, changed it)") + \
                           ": seed %d goroutines %d ops %d: %s %s" % (seed * 100 + i, g, n, o[:600], p.stderr.decode()[:1500])
                 if race:
                     # the same schedule seed once more without halting at the first report: which results / stored texts it costs
@@ -157,7 +187,7 @@ def post(tier, seed, cov, result):
         static = {k: v for k, v in (cov.get("regenerated") or {}).items()
                   if k in ("reachable_functions_storing_to_globals", "copy_primitives_handing_out_their_source",
                            "read_operations_writing_what_they_read", "scratch_parameters_left_with_foreign_memory",
-                           "generated_copies_storing_their_source") and v}
+                           "generated_copies_storing_their_source", "operations_rewriting_text_in_place") and v}
         json.dump({"property": "C20", "problem": problem, "how": "build/racerun <seed> <goroutines> <ops>  (built with go build -race ./cmd/racerun)",
                    "what_the_extracted_facts_say": static},
                   open(os.path.join(ROOT, path), "w"), indent=1)
@@ -169,7 +199,7 @@ CHECK = Check(
     "C20", streams=[], pre=pre, post=post,
     rule=("(a) call graph, stores to package-level variables, 'a result may be derived from parameter p' and 'the function may write "
           "through parameter t what is derived from parameters from' facts re-extracted from "
-          "/repo's current source (go/ssa, CHA) and the theorem file re-checked against them; (b) exploration: 8 or 32 goroutines issue seeded random read operations on shared values "
+          "/repo's current source (go/ssa, CHA), plus 'the function may write text IN PLACE into a byte array derived from parameter p' facts, and the theorem file re-checked against them; (b) exploration: 8 or 32 goroutines issue seeded random read operations on shared values "
           "through shared generated and built-in inspectors and write operations on private values with private buffers, built with "
           "-race; private values are both built in place and DERIVED from shared templates (Copy, CopyTo with an own buffer, CopyTo into "
           "an own Reset value; templates with text emptied in place - capacity kept -, empty strings, empty non-nil and nil slices and "
@@ -190,6 +220,17 @@ CHECK = Check(
           "buffer, Reset, the owner's direct writes through its own pointers (pointer keys included), while the others Get / Compare / "
           "DeepEqual / Copy the templates at their leaves' paths; a private value must be, through every pointer, what its "
           "goroutine left there, and the templates take part in the before / after comparison (which follows pointers). "
+          "Fifth population: information flow from shared to private values BY REFERENCE - what Get returned on a shared value "
+          "(the reference, or what it points to: []byte, *[]byte, string, *string, numbers; slices, maps, pointers where Set takes "
+          "them) from every leaf / inner node of every shipped type and of [][]byte, []string, map[string]any, handed to Set / "
+          "SetWithBuffer at a leaf of a private value of the same or of ANOTHER type (bytes -> bytes, bytes -> string, string -> bytes, "
+          "...); the goroutine keeps writing the private value - Set / SetWithBuffer of scalars and texts at every leaf (the one "
+          "holding the reference included), CopyTo into it from a private source with its own buffer (as it is, and after Reset), "
+          "Reset, appends through Get references and writes in place where the memory is its own (decided natively: the byte "
+          "arrays, string data and cells of all shared values are indexed before the start); a value holding a CONTAINER of a "
+          "shared value is only read through, copied from, written outside of it, and given a container of its own before it is "
+          "copied into / Reset (collections are reused in place, documented) - while the others read the shared values: a text leaf "
+          "is replaced, never rewritten where it lies (race detector; same result as alone; private shadow; shared values unchanged). "
           "distinct = distinct (seed, goroutines) run."),
     assumptions=["the Go standard library, encoding/json and the runtime are outside the extracted graph (trusted)",
                  "CHA over-approximates interface and function-value calls; reflection-based calls do not occur in the module",
@@ -209,7 +250,11 @@ MANIFEST = {
              "and what Loop leaves in the caller's key buffer is memory of that buffer, never of the value looped over "
              "(C20_reads_never_write_what_they_read, C20_deep_equal_writes_nothing, C20_loop_keys_live_in_the_key_buffer); what the generated "
              "Copy / CopyTo / cpy store into the destination is derived from the destination and the buffer, never from the source - a "
-             "private copy owns every cell its pointers reach (C20_copies_store_nothing_of_their_source). Explored, not proved: race-detector runs of "
+             "private copy owns every cell its pointers reach (C20_copies_store_nothing_of_their_source); over the extracted 'may write "
+             "text in place into a byte array derived from parameter p' facts no operation of any inspector rewrites the bytes it "
+             "finds in a value - cpy / CopyTo / SetWithBuffer / Loop write text into the caller's buffer only, Set / Copy / Reset and "
+             "the reads into no parameter - so a private value handed bytes of a shared one by reference can be written without the "
+             "shared one being touched (C20_text_is_never_rewritten_in_place). Explored, not proved: race-detector runs of "
              "concurrent readers on shared values and writers on private values, results compared with sequential execution."),
     "note": ("The model cannot exhibit data races below call granularity (scheduler, memory model); that the generated methods' "
              "footprints are what the theorem assumes (reads: the value; writes: destination and buffer) rests on C12/C03/C06/C08 and on "
